@@ -48,6 +48,9 @@ pub enum Ev {
     /// mouse wheel (the real event reader maps it to k / j)
     ScrollUp,
     ScrollDown,
+    /// a character key pressed with modifiers (bit 0 shift, bit 1 control, bit 2 alt):
+    /// the handler dispatches on the key code alone
+    Mod(char, u8),
     /// the system clock is stepped (NTP correction, suspend/resume, operator):
     /// from now on the wall clock reads true time + this many seconds
     ClockStep(i32),
@@ -98,7 +101,8 @@ pub fn gen_ev(rng: &mut Rng, nav_bias: bool) -> Ev {
             _ => Ev::ScrollDown,
         };
     }
-    match rng.below(30) {
+    match rng.below(31) {
+        30 => Ev::Mod(*rng.pick(&['a', 'c', 'v', '.', 'f', 'l', '-', 'q', 'j', 'k', 'g', '/', 'x']), rng.range(1, 7) as u8),
         0..=13 => Ev::Ch(*rng.pick(KEYS)),
         14 => {
             if rng.chance(0.5) {
@@ -162,6 +166,8 @@ impl Scenario for C17 {
             let at = if typed_ahead && i < 3 { 0 } else { rng.below(span_ns) };
             events.push(TimedEv { at_ns: at, ev: gen_ev(rng, nav_bias) });
         }
+        // long tables: page and scroll through them
+        // (decided below, once the number of aircraft is known)
         // the wall clock is stepped backwards or forwards while rows are displayed
         if rng.chance(0.15) {
             for _ in 0..rng.usize(1, 2) {
@@ -216,6 +222,23 @@ impl Scenario for C17 {
         events.sort_by_key(|e| (e.at_ns, if first_is_key { (e.ev == Ev::Tick) as u8 } else { (e.ev != Ev::Tick) as u8 }));
         // (1 session in 50 has more rows than the terminal is high: scrolling)
         let n_ac = if rng.chance(0.02) { rng.range(30, 200) as u8 } else { *rng.pick(&[0u8, 0, 1, 1, 2, 3, 4, 6]) };
+        if n_ac > 6 {
+            let mut t = span_ns / 3;
+            for _ in 0..rng.usize(5, 40) {
+                t += rng.range(1_000_000, 300_000_000);
+                let ev = match rng.below(8) {
+                    0 | 1 => Ev::PageDown,
+                    2 => Ev::PageUp,
+                    3 => Ev::Ch('a'),
+                    4 => Ev::Ch('-'),
+                    5 => Ev::Down,
+                    6 => Ev::ScrollDown,
+                    _ => Ev::Ch('j'),
+                };
+                events.push(TimedEv { at_ns: t.min(span_ns - 1), ev });
+            }
+            events.sort_by_key(|e| e.at_ns);
+        }
         let mut feeds = Vec::new();
         for ac in 0..n_ac {
             // bursts of records separated by silences longer than the 30 s ageing
@@ -493,9 +516,17 @@ impl Shared {
     }
 }
 
+fn modifiers_of(ev: &Ev) -> KeyModifiers {
+    match ev {
+        Ev::Mod(_, m) => KeyModifiers::from_bits_truncate(((*m & 1) * KeyModifiers::SHIFT.bits()) | (((*m >> 1) & 1) * KeyModifiers::CONTROL.bits()) | (((*m >> 2) & 1) * KeyModifiers::ALT.bits())),
+        _ => KeyModifiers::NONE,
+    }
+}
+
 fn keycode_of(ev: &Ev) -> Option<KeyCode> {
     Some(match ev {
         Ev::Ch(c) => KeyCode::Char(*c),
+        Ev::Mod(c, _) => KeyCode::Char(*c),
         Ev::Esc => KeyCode::Esc,
         Ev::Enter => KeyCode::Enter,
         Ev::Backspace => KeyCode::Backspace,
@@ -569,7 +600,7 @@ pub fn spawn_tui(
                         if matches!(other, Ev::ScrollUp | Ev::ScrollDown) {
                             sh.borrow_mut().count("mouse_wheel");
                         }
-                        keycode_of(other).map(|c| ToTui::Event(Event::Key(KeyEvent::new(c, KeyModifiers::NONE))))
+                        keycode_of(other).map(|c| ToTui::Event(Event::Key(KeyEvent::new(c, modifiers_of(other)))))
                     }
                 };
                 if let Some(m) = msg {
@@ -866,9 +897,9 @@ pub fn execute(plan: &C17Plan) -> Outcome<C17Plan> {
                 let icao = 0x400000 + 0x1111 * (ai + 1);
                 let frame = match f.kind {
                     0 => world::df17_identification(icao, 4, 3, &format!("SIM{:04}", ai)),
-                    1 => world::df17_airborne_position(icao, 11, 10000 + 1000 * ai as i32, 45.0 + ai as f64, 5.0, false).0,
+                    1 => world::df17_airborne_position(icao, 11, if n_ac > 6 { 34000 + 25 * ((ai as i32 * 37) % 61) } else { 10000 + 1000 * ai as i32 }, 45.0 + (ai % 40) as f64, 5.0, false).0,
                     2 => world::df17_velocity_gs(icao, 100 + ai as i32, 200, 640),
-                    _ => world::df4(icao, 0, 12000 + 500 * ai as i32),
+                    _ => world::df4(icao, 0, if n_ac > 6 { 34000 + 25 * ((ai as i32 * 37) % 61) } else { 12000 + 500 * ai as i32 }),
                 };
                 let Ok(message) = Message::try_from(frame.as_slice()) else { continue };
                 let ts = exec::now_unix_f64();
@@ -1115,7 +1146,7 @@ struct SeqCtx {
 fn seq_step(g: &mut tokio::sync::MutexGuard<'_, Jet1090>, cx: &mut SeqCtx, ev: &Ev, shown: &mut Option<usize>, drawn: &mut bool, path: &[u8]) -> bool {
     let event = match ev {
         Ev::Tick => Event::Tick(cx.width),
-        other => Event::Key(KeyEvent::new(keycode_of(other).unwrap(), KeyModifiers::NONE)),
+        other => Event::Key(KeyEvent::new(keycode_of(other).unwrap(), modifiers_of(other))),
     };
     let key = match &event {
         Event::Key(k) => Some(k.code),
